@@ -26,7 +26,11 @@ pub enum Out { Capture, File(PathBuf), DevFull, ClosedPipe, Null }
 #[derive(Clone, Debug)]
 pub struct Cmd { pub args: Vec<OsString>, pub env: Vec<(String, String)>, pub stdin: In, pub stdout: Out, pub cwd: PathBuf, pub timeout_ms: u64,
     /// largest file the process may write, in 512-byte blocks (a write beyond it fails with EFBIG): a full disk / quota in miniature
-    pub fsize_blocks: Option<u64> }
+    pub fsize_blocks: Option<u64>,
+    /// environment variables whose values are arbitrary bytes (not necessarily UTF-8)
+    pub env_os: Vec<(String, Vec<u8>)>,
+    /// named pipes to create in the working directory before the start, each fed with data in pieces (name, data, piece sizes)
+    pub fifos: Vec<(String, Vec<u8>, Vec<usize>)> }
 #[derive(Clone, Debug)]
 pub struct Run { pub code: Option<i32>, pub signal: Option<i32>, pub stdout: Vec<u8>, pub stderr: Vec<u8>, pub timed_out: bool }
 impl Run {
@@ -51,6 +55,18 @@ pub fn run(c: &Cmd) -> Run {
     };
     cmd.args(&c.args).env_clear().current_dir(&c.cwd);
     for (k, v) in &c.env { cmd.env(k, v); }
+    for (k, v) in &c.env_os { cmd.env(k, <std::ffi::OsString as std::os::unix::ffi::OsStringExt>::from_vec(v.clone())); }
+    let mut fifo_feeders = Vec::new();
+    for (name, data, sizes) in &c.fifos {
+        let path = c.cwd.join(name); let cp = std::ffi::CString::new(path.to_string_lossy().as_bytes()).unwrap();
+        unsafe { libc::mkfifo(cp.as_ptr(), 0o600); }
+        let (data, sizes, done) = (data.clone(), sizes.clone(), std::sync::Arc::new(std::sync::atomic::AtomicBool::new(false))); let d2 = done.clone();
+        // open non-blocking until a reader shows up (the tool may fail before it ever opens the FIFO)
+        fifo_feeders.push((done, std::thread::spawn(move || { use std::io::Write; use std::os::unix::fs::OpenOptionsExt;
+            let mut f = loop { match std::fs::OpenOptions::new().write(true).custom_flags(libc::O_NONBLOCK).open(&path) { Ok(f) => break f, Err(_) => { if d2.load(Ordering::Relaxed) { return; } std::thread::sleep(std::time::Duration::from_millis(2)); } } };
+            unsafe { let fd = std::os::fd::AsRawFd::as_raw_fd(&f); let fl = libc::fcntl(fd, libc::F_GETFL); libc::fcntl(fd, libc::F_SETFL, fl & !libc::O_NONBLOCK); }
+            let mut off = 0; let mut i = 0; while off < data.len() { let n = sizes.get(i).copied().unwrap_or(usize::MAX).max(1).min(data.len() - off); if f.write_all(&data[off..off + n]).is_err() { break; } off += n; i += 1; if i < 6 { std::thread::sleep(std::time::Duration::from_millis(40)); } } })));
+    }
     match &c.stdin {
         In::Null | In::Closed => { cmd.stdin(Stdio::null()); }
         In::Bytes(b) => { let p = io.join("stdin"); let _ = std::fs::write(&p, b); cmd.stdin(std::fs::File::open(&p).map(Stdio::from).unwrap_or_else(|_| Stdio::null())); }
@@ -79,6 +95,7 @@ pub fn run(c: &Cmd) -> Run {
     let status = child.wait().ok();
     let timed_out = watchdog_remove(pid);
     if let Some(f) = feeder { let _ = f.join(); }
+    for (done, t) in fifo_feeders { done.store(true, Ordering::Relaxed); let _ = t.join(); }
     let stdout = if c.stdout == Out::Capture { std::fs::read(io.join("stdout")).unwrap_or_default() } else { vec![] };
     let stderr = std::fs::read(io.join("stderr")).unwrap_or_default();
     let _ = std::fs::remove_dir_all(&io);
@@ -96,7 +113,7 @@ impl Sandbox {
     pub fn path(&self, name: &str) -> PathBuf { self.dir.join(name) }
     pub fn write(&self, name: &str, data: &[u8]) -> PathBuf { let p = self.path(name); std::fs::write(&p, data).expect("write temp file"); p }
     pub fn read(&self, name: &str) -> Option<Vec<u8>> { std::fs::read(self.path(name)).ok() }
-    pub fn cmd(&self, a: &[&str]) -> Cmd { Cmd { args: args(a), env: vec![], stdin: In::Null, stdout: Out::Capture, cwd: self.dir.clone(), timeout_ms: 60_000, fsize_blocks: None } }
+    pub fn cmd(&self, a: &[&str]) -> Cmd { Cmd { args: args(a), env: vec![], stdin: In::Null, stdout: Out::Capture, cwd: self.dir.clone(), timeout_ms: 60_000, fsize_blocks: None, env_os: vec![], fifos: vec![] } }
 }
 impl Drop for Sandbox { fn drop(&mut self) { let _ = std::fs::remove_dir_all(&self.dir); } }
 impl Cmd {
